@@ -1,11 +1,15 @@
 import GrmVerif.Model.AnalysesRef
+import GrmVerif.Model.FirstsFollowsImpl
 import GrmVerif.Model.Recog
 import GrmVerif.Drive.Util
 /-!
 Driver for C17. Request: `<grammar> ntoks×cost nrules×mincost nrules×maxcost nrules×minsent nrules×minsents`
 (answers of the implementation; 70001 = did not return, 70002 = panicked, 70003 = `None`).
 Reply: `S eps … first … follow … path …` from the verified reference analyses (compared for equality
-with the implementation), and `V` verdicts on the cost answers. Every `V fail` is backed by a
+with the implementation's `I` line), `Mf eps … first … follow …` from the faithful models of
+`YaccFirsts::new` / `YaccFollows::new` (`Model/FirstsFollowsImpl.lean`, run with the fuel that
+`firsts_impl_exact` / `follows_impl_exact` prove sufficient; compared with the implementation's `If`
+line), and `V` verdicts on the cost answers. Every `V fail` is backed by a
 verified certificate (`min_cost_exact`, `max_cost_upper_bound`, `recog_sound`); only the *acceptance*
 of a `None` maximal cost rests on the unproved growth analysis below.
 -/
@@ -125,6 +129,23 @@ def tightReach (G : Grammar) (tc : Nat → Nat) (c : Nat → Option Nat) (first 
 def tightCycle (G : Grammar) (tc : Nat → Nat) (c : Nat → Option Nat) (first : Bool) (r : Nat) : Bool :=
   (r :: tightReach G tc c first r).any (fun x => (tightReach G tc c first x).contains x)
 
+/-- the `Mf` line: epsilon, FIRST and FOLLOW bits as computed by the models of the Rust loops -/
+def modelLine (G : Grammar) : String :=
+  let rules := List.range G.nrules
+  let toks := List.range G.ntoks
+  match Impl.firstsNew G (Impl.firstsFuel G) with
+  | .panic => "Mf firsts-panic"
+  | .fuelOut => "Mf firsts-fuel-exhausted"
+  | .done fst =>
+    match Impl.followsNew G fst (Impl.followsFuel G) with
+    | .panic => "Mf follows-panic"
+    | .fuelOut => "Mf follows-fuel-exhausted"
+    | .done w =>
+      let eps := rules.map (fun r => fst.isEpsilonSet r)
+      let first := rules.flatMap (fun r => toks.map (fun t => fst.isSet r t))
+      let follow := rules.flatMap (fun r => toks.map (fun t => Impl.mget w r t))
+      s!"Mf eps {bitsOf eps} first {bitsOf first} follow {bitsOf follow}"
+
 def handle (args : List Nat) : String :=
   match parseGrammar args with
   | none => "bad-request"
@@ -157,6 +178,7 @@ def handle (args : List Nat) : String :=
           | none => rules.map (fun _ => false)
           | some R => rules.map (fun b => R.contains b))
         s!"S eps {bitsOf eps} first {bitsOf first} follow {bitsOf follow} path {bitsOf path}"
+    let sLine := sLine ++ "\n" ++ modelLine G
     -- costs
     match minCosts G tc with
     | none => sLine ++ "\nV fail reference minimal costs: fuel exhausted"
